@@ -103,6 +103,45 @@ impl Arg for &mut Cn {
     fn consume(self, _: bool) {}
 }
 
+/// A zero-sized element type (identity always 0): selects the `size_of::<T>() == 0` paths
+/// (e.g. the dangling pointer in the boxed `generate`); only counts and call order are observable.
+#[derive(Debug, Default, Clone)]
+pub struct Zs;
+impl Elem for Zs {
+    const TRACKED: bool = false;
+    fn make(_: i64) -> Zs {
+        Zs
+    }
+    fn fresh() -> Zs {
+        Zs
+    }
+    fn id(&self) -> i64 {
+        0
+    }
+    fn release(self) {}
+}
+impl Arg for Zs {
+    const OWNED: bool = false;
+    fn arg_id(&self) -> i64 {
+        0
+    }
+    fn consume(self, _: bool) {}
+}
+impl Arg for &Zs {
+    const OWNED: bool = false;
+    fn arg_id(&self) -> i64 {
+        0
+    }
+    fn consume(self, _: bool) {}
+}
+impl Arg for &mut Zs {
+    const OWNED: bool = false;
+    fn arg_id(&self) -> i64 {
+        0
+    }
+    fn consume(self, _: bool) {}
+}
+
 /// An argument handed to the caller's closure: by value (then the closure owns it: it is
 /// recorded as handed over and either forgotten or dropped BY THE CLOSURE, which is then
 /// subtracted from the drop log) or by reference.
